@@ -2,6 +2,7 @@ package val
 
 import (
 	b64 "encoding/base64"
+	"encoding/json"
 	"fmt"
 	"math"
 	"reflect"
@@ -29,6 +30,9 @@ func Conv(f Format, val interface{}) (Value, error) {
 	}()
 	if val == nil {
 		return nil, err
+	}
+	if f != FmtAny && f != FmtAnyList {
+		val = jsonNumbersAsText(val)
 	}
 	switch f {
 	case FmtBinary:
@@ -178,6 +182,27 @@ func Conv(f Format, val interface{}) (Value, error) {
 	}
 	err = fmt.Errorf("cannot coerse '%T' to %s value", val, f.String())
 	return nil, err
+}
+
+// jsonNumbersAsText turns numbers from a JSON decoder that keeps them as written
+// (json.Number) into their text so they convert exactly like numeric strings do.
+func jsonNumbersAsText(val interface{}) interface{} {
+	switch x := val.(type) {
+	case json.Number:
+		return string(x)
+	case []interface{}:
+		for i, item := range x {
+			if _, isNum := item.(json.Number); isNum {
+				l := make([]interface{}, len(x))
+				copy(l, x)
+				for j := i; j < len(l); j++ {
+					l[j] = jsonNumbersAsText(l[j])
+				}
+				return l
+			}
+		}
+	}
+	return val
 }
 
 func toInt8(val interface{}) (int8, error) {
